@@ -832,7 +832,7 @@ impl XmlAttributeValue {
                 }
                 parser::Reference::Entity(v) => {
                     let entity = context.entity(v)?;
-                    check_entity_recursion(v, context, &mut vec![], &mut vec![])?;
+                    check_entity_recursion(v, context, &mut vec![], &mut vec![], false)?;
                     // WFC: No External Entity References
                     if entity.borrow().system_identifier().is_some() {
                         return Err(error::Error::InvalidData(v.to_string()));
@@ -2415,7 +2415,7 @@ impl XmlElement {
                         }
                         parser::Reference::Entity(v) => {
                             let entity = context.entity(v)?;
-                            check_entity_recursion(v, context, &mut vec![], &mut vec![])?;
+                            check_entity_recursion(v, context, &mut vec![], &mut vec![], true)?;
                             // WFC: Parsed Entity
                             if entity.borrow().notation_name().is_some() {
                                 return Err(error::Error::InvalidData(v.to_string()));
@@ -4387,6 +4387,7 @@ fn check_entity_recursion(
     context: &Context,
     path: &mut Vec<String>,
     done: &mut Vec<String>,
+    content: bool,
 ) -> error::Result<()> {
     if done.iter().any(|v| v == name) {
         return Ok(());
@@ -4404,8 +4405,13 @@ fn check_entity_recursion(
     path.push(name.to_string());
     let replacement = entity_replacement_text(&entity)?;
     for piece in scan_replacement_text(replacement.as_str())? {
-        if let ReplacementPiece::Entity(v) = piece {
-            check_entity_recursion(v, context, path, done)?;
+        match piece {
+            ReplacementPiece::Entity(v) => check_entity_recursion(v, context, path, done, content)?,
+            // Included in content, the replacement text is character data: no "]]>" (production [14]).
+            ReplacementPiece::Text(v) if content && v.contains("]]>") => {
+                return Err(error::Error::InvalidData(name.to_string()));
+            }
+            _ => {}
         }
     }
     path.pop();
